@@ -1842,7 +1842,13 @@ class Wtp:
                     #       .format(name, ht, t))
                     t = add_newline_to_expansion(t)
                     if post_template_fn is not None:
-                        t2 = post_template_fn(urllib.parse.unquote(name), ht, t)
+                        # (the hook gets text, not the internal character that
+                        # protects an "=" from a substituted parameter)
+                        t2 = post_template_fn(
+                            urllib.parse.unquote(name),
+                            ht,
+                            t.replace(MAGIC_EQUALS_CHAR, "="),
+                        )
                         if t2 is not None:
                             t = t2
 
